@@ -363,6 +363,23 @@ func buildDefinition(spec *Spec, w *world) (def *graphql.SchemaDefinition, named
 		return out
 	}
 	connPrefixes := map[string]bool{}
+	connIfaces := map[string]*graphql.InterfaceType{}
+	var connIfaceTypes []graphql.NamedType
+	for _, ci := range spec.ConnIfaces {
+		if connPrefixes[ci.Prefix] || named[ci.Prefix+"Connection"] != nil || named[ci.Prefix+"Edge"] != nil {
+			fail("duplicate connection interface prefix %s", ci.Prefix)
+		}
+		connPrefixes[ci.Prefix] = true
+		it := apifu.ConnectionInterface(&apifu.ConnectionInterfaceConfig{
+			NamePrefix:       ci.Prefix,
+			RequiredFeatures: reqSet(ci.Req),
+			EdgeFields:       map[string]*graphql.FieldDefinition{"node": {Type: resolveT(parseType(ci.Node))}},
+		})
+		connIfaces[ci.Prefix] = it
+		edgeIface := gschema.UnwrappedType(it.Fields["edges"].Type)
+		named[ci.Prefix+"Connection"], named[ci.Prefix+"Edge"] = it, edgeIface
+		connIfaceTypes = append(connIfaceTypes, it, edgeIface)
+	}
 	var mkConn func(parent string, f *FieldSpec) *graphql.FieldDefinition
 	mkFields := func(t *TypeSpec, withResolvers bool) map[string]*graphql.FieldDefinition {
 		out := map[string]*graphql.FieldDefinition{}
@@ -395,11 +412,20 @@ func buildDefinition(spec *Spec, w *world) (def *graphql.SchemaDefinition, named
 				nodeField := &FieldSpec{Name: "node", Type: c.Node}
 				nodeResolve := w.resolver(c.Prefix+"Edge", nodeField)
 				fname, prefix := f.Name, c.Prefix
+				var impl []*graphql.InterfaceType
+				for _, p := range c.Impl {
+					it, ok := connIfaces[p]
+					if !ok {
+						fail("connection %s implements unknown connection interface %s", c.Prefix, p)
+					}
+					impl = append(impl, it)
+				}
 				def := apifu.Connection(&apifu.ConnectionConfig{
-					NamePrefix:       c.Prefix,
-					RequiredFeatures: reqSet(f.Req),
-					CursorType:       reflect.TypeOf(int(0)),
-					EdgeCursor:       func(e interface{}) interface{} { return e.(edgeVal).i },
+					NamePrefix:            c.Prefix,
+					ImplementedInterfaces: impl,
+					RequiredFeatures:      reqSet(f.Req),
+					CursorType:            reflect.TypeOf(int(0)),
+					EdgeCursor:            func(e interface{}) interface{} { return e.(edgeVal).i },
 					EdgeFields: map[string]*graphql.FieldDefinition{
 						"node": {Type: resolveT(nodeT), Resolve: nodeResolve},
 					},
@@ -426,6 +452,7 @@ func buildDefinition(spec *Spec, w *world) (def *graphql.SchemaDefinition, named
 		}
 	}
 	var additional []graphql.NamedType
+	additional = append(additional, connIfaceTypes...)
 	for i := range spec.Orphans {
 		def := mkConn("(orphan)", &spec.Orphans[i])
 		additional = append(additional, def.Type.(graphql.NamedType))
@@ -480,6 +507,13 @@ func buildDefinition(spec *Spec, w *world) (def *graphql.SchemaDefinition, named
 			fail("mutation type %q is not an object", spec.Mutation)
 		}
 		def.Mutation = m
+	}
+	if spec.Subscription != "" {
+		m, ok := named[spec.Subscription].(*graphql.ObjectType)
+		if !ok {
+			fail("subscription type %q is not an object", spec.Subscription)
+		}
+		def.Subscription = m
 	}
 	return def, named, nil
 }
